@@ -171,17 +171,21 @@ def _model_run_func(
     """
     run_id, iteration, kwargs = run
     model = model_cls(**kwargs)
-    while model.running and model.steps <= max_steps:
+    while model.running and model.steps < max_steps:
         model.step()
 
     data = []
 
-    steps = list(range(0, model.steps, data_collection_period))
-    if not steps or steps[-1] != model.steps - 1:
-        steps.append(model.steps - 1)
+    # report every data_collection_period-th collection and always the last one;
+    # a row is labelled with the step at which its collection was made
+    collected = _collection_steps(model)
+    picks = list(range(0, len(collected), data_collection_period))
+    if collected and (not picks or picks[-1] != len(collected) - 1):
+        picks.append(len(collected) - 1)
 
-    for step in steps:
-        model_data, all_agents_data = _collect_data(model, step)
+    for index in picks:
+        step = collected[index]
+        model_data, all_agents_data = _collect_data(model, index)
 
         # If there are agent_reporters, then create an entry for each agent
         if all_agents_data:
@@ -212,21 +216,26 @@ def _model_run_func(
     return data
 
 
-def _collect_data(
-    model: Model,
-    step: int,
-) -> tuple[dict[str, Any], list[dict[str, Any]]]:
-    """Collect model and agent data from a model using mesas datacollector."""
+def _collection_steps(model: Model) -> list[int]:
+    """The value of model.steps at each collection made by the model's datacollector."""
     if not hasattr(model, "datacollector"):
         raise AttributeError(
             "The model does not have a datacollector attribute. Please add a DataCollector to your model."
         )
+    return model.datacollector._collection_steps
+
+
+def _collect_data(
+    model: Model,
+    index: int,
+) -> tuple[dict[str, Any], list[dict[str, Any]]]:
+    """Model and agent data of the index-th collection made by the model's datacollector."""
     dc = model.datacollector
 
-    model_data = {param: values[step] for param, values in dc.model_vars.items()}
+    model_data = {param: values[index] for param, values in dc.model_vars.items()}
 
     all_agents_data = []
-    raw_agent_data = dc._agent_records.get(step, [])
+    raw_agent_data = dc._agent_records.get(_collection_steps(model)[index], [])
     for data in raw_agent_data:
         agent_dict = {"AgentID": data[1]}
         agent_dict.update(zip(dc.agent_reporters, data[2:]))
